@@ -151,7 +151,22 @@ def ensure_facts(repo=REPO):
     finally:
         fcntl.flock(lock, fcntl.LOCK_UN)
         lock.close()
-    return Facts(fdir)
+    global CURRENT_FACTS
+    CURRENT_FACTS = Facts(fdir)
+    CURRENT_FACTS.repo = repo
+    return CURRENT_FACTS
+
+
+CURRENT_FACTS = None
+
+
+def template_canon(rel_under_templates, text, repo):
+    """template text with renamed template-struct fields / template locals spelled as in the reference tree (alpha.py)"""
+    if os.environ.get("VERIF_NO_ALPHA"):
+        return text
+    import alpha
+    f = CURRENT_FACTS if CURRENT_FACTS is not None and getattr(CURRENT_FACTS, "repo", None) == repo else None
+    return alpha.template_text(rel_under_templates, text, repo, f)
 
 
 # --------------------------------------------------------------------------- facts
@@ -245,6 +260,10 @@ class Facts:
                 d = json.load(f)
             if d["n_fn"] < UNIT_FLOORS.get(name, 0):
                 raise CheckError("unit %s has %d functions, below the floor %d" % (name, d["n_fn"], UNIT_FLOORS[name]))
+            if not os.environ.get("VERIF_NO_ALPHA"):
+                # private items renamed since the rules were written are spelled back (see alpha.py)
+                import alpha
+                alpha.canonicalise(name, d)
             self._units[name] = Unit(name, d)
         return self._units[name]
 
@@ -873,6 +892,14 @@ class Check:
         self.notes.append(s_)
 
     def finish(self):
+        try:
+            import alpha
+            for l in alpha.LOG:
+                self.notes.append("renamed item recognised and spelled back: " + l)
+                if os.environ.get("VERIF_ALPHA_LOG"):
+                    print("  ALPHA " + l)
+        except ImportError:
+            pass
         known = load_known()
         viol = [i for i in self.instances if not i["ok"]]
         new = []
@@ -979,7 +1006,10 @@ def read_repo(rel, repo=REPO):
     if not os.path.exists(p):
         raise CheckError("anchor file %s does not exist" % rel)
     with open(p, encoding="utf-8") as f:
-        return f.read()
+        txt = f.read()
+    if rel.startswith("tool/templates/"):
+        txt = template_canon(rel[len("tool/templates/"):], txt, repo)
+    return txt
 
 
 # --------------------------------------------------------------------------- symbolic MIR values
